@@ -217,7 +217,13 @@ struct Script {
 		}
 	}
 
-	int randomPayload() { return prng.chance(knobs.payload) ? static_cast<int>(prng.below(1000)) : -1; }
+	// $VH_NOPAYLOADUSE: the draws happen, the payload is not used — a build with a payload type then behaves like one
+	// without ("payload type configured but unused ≡ Payload = void", engine_c15 pair `payload0`)
+	int randomPayload() {
+		static const bool unused = std::getenv("VH_NOPAYLOADUSE") != nullptr;
+		const int v = prng.chance(knobs.payload) ? static_cast<int>(prng.below(1000)) : -1;
+		return unused ? -1 : v;
+	}
 };
 
 inline Script& script() { static Script s; return s; }
